@@ -881,4 +881,83 @@ def r4_11(run):
     run.floor(8)
 
 
-RULES = [("R4.1", r4_1), ("R4.2", r4_2), ("R4.3", r4_3), ("R4.4", r4_4), ("R4.5", r4_5), ("R4.7", r4_7), ("R4.8", r4_8), ("R4.9", r4_9), ("R4.10", r4_10), ("R4.11", r4_11)]
+def _mentions_service_flag(t):
+    for x in walk(t):
+        if isinstance(x, tuple) and x:
+            if x == ("c", "in_service") or (x[0] == "attr" and x[2] in ("in_service", "active_identifier")):
+                return True
+    return False
+
+
+def counting_sites(ix):
+    """[(function, node, key term, ok, how)]: groupings in the component models that COUNT the elements per junction
+    (np.unique(.., return_counts=True), _sum_by_group(.., keys, .., ones_like(..)))"""
+    funcs = [f for f in ix.all_functions() if f.module.startswith("pandapipes.component_models.")]
+    runs = {}
+    for f in funcs:
+        try:
+            runs[f] = ANF(ix, f, strip=False).run()
+        except AnalysisError:
+            continue
+    callers = {}
+    for f, r in runs.items():
+        for e in r.events:
+            if e.kind == "call" and e.term[1][0] == "f":
+                callers.setdefault(e.term[1][1], []).append((f, e))
+    sites = []
+    for f, r in runs.items():
+        params = [a.arg for a in f.node.args.args]
+        for e in r.events:
+            if e.kind != "call":
+                continue
+            t = e.term
+            keys = None
+            if t[1] == ("x", "numpy.unique") and any(k == "return_counts" and v == C(True) for k, v in t[3]):
+                keys = t[2][0]
+            elif t[1][0] == "f" and t[1][1].rsplit(".", 1)[-1].startswith("_sum_by_group") and any(
+                    a[0] == "call" and a[1] in (("x", "numpy.ones_like"), ("x", "numpy.ones")) for a in t[2][1:]):
+                keys = t[2][1] if t[1][1].endswith("._sum_by_group") else t[2][0]
+            if keys is None:
+                continue
+            if _mentions_service_flag(keys):
+                sites.append((f, e.node, keys, True, "in the function"))
+                continue
+            used = [p_ for p_ in params if p_ not in ("cls", "self", "net") and any(x == ("n", p_) for x in walk(keys))]
+            cs = callers.get(f.qualname, [])
+            if not used or not cs:
+                sites.append((f, e.node, keys, None if not cs and used else False, "no caller" if used else "no service flag"))
+                continue
+            ok = True
+            for cf, ce in cs:
+                bound = dict(zip(params, ce.term[2]))
+                bound.update({k: v for k, v in ce.term[3] if k})
+                if not any(p_ in bound and _mentions_service_flag(bound[p_]) for p_ in used):
+                    ok = False
+                    sites.append((f, ce.node, keys, False, "argument of the call in %s" % cf.short))
+            if ok:
+                sites.append((f, e.node, keys, True, "at %d call sites" % len(cs)))
+    return sites
+
+
+def r4_12(run):
+    """an element that is out of service must not change any result: where the component models share a junction's value among the
+    elements connected to it (the slack mass flow divided by the number of external grids, the mean of the prescribed pressures), the
+    multiplicity counts in-service elements only.  Every counting grouping (np.unique(.., return_counts=True) / _sum_by_group with a
+    ones_like value) in component_models takes its keys from rows selected by the table's in_service flag -- in the function itself
+    or, for keys that are a parameter, in the argument of every call."""
+    ix = run.index
+    n = 0
+    for f, node, keys, ok, how in counting_sites(ix):
+        if ok is None:
+            run.stat("counting_groupings_without_caller", 1)
+            continue
+        n += 1
+        run.analysed(f)
+        run.ob("%s|%s|counts-in-service-elements" % (f.short, show(keys)[:40]), ok,
+               "the elements counted per junction are restricted to the in-service rows (%s)" % how, run.where(f, node),
+               detail=None if ok else show(keys)[:200])
+    run.stat("counting_groupings", n)
+    run.floor(2)
+
+
+RULES = [("R4.1", r4_1), ("R4.2", r4_2), ("R4.3", r4_3), ("R4.4", r4_4), ("R4.5", r4_5), ("R4.7", r4_7), ("R4.8", r4_8), ("R4.9", r4_9), ("R4.10", r4_10), ("R4.11", r4_11), ("R4.12", r4_12)]
